@@ -32,7 +32,7 @@ type item struct {
 }
 
 type recorder struct {
-	mu    sync.Mutex
+	mu    *sync.Mutex // one for all pools of an engine (a controlled run of several pools has ONE controller)
 	tids  map[int64]int
 	lids  map[int]int // tid -> number in the log (order of the first LOGGED operation = the model's start order)
 	evs   []string
@@ -41,6 +41,7 @@ type recorder struct {
 	items []item
 	cur   map[any]int // ammo object -> item number (acquisition order)
 	ctl   *ctl
+	loose bool // race-detector runs: real operations happen outside mu, the log is only counted (not replayed)
 	// fine-grained mode (instrumented worker): instances that are inside a schedule call of the logging wrapper
 	inCall map[int]bool
 	// runaway guard: a pool over a finite profile performs a bounded number of operations; far beyond that bound the run
@@ -52,7 +53,7 @@ type recorder struct {
 }
 
 func newRecorder() *recorder {
-	return &recorder{tids: map[int64]int{}, lids: map[int]int{}, cur: map[any]int{}, inCall: map[int]bool{}}
+	return &recorder{mu: &sync.Mutex{}, tids: map[int64]int{}, lids: map[int]int{}, cur: map[any]int{}, inCall: map[int]bool{}}
 }
 
 // tid: instances are numbered in the order of their first operation. Call with mu held.
